@@ -33,6 +33,12 @@ FIXED = [
  ("while one of its contexts was still being torn down", "C10", "nni_ctx_rele took a closed context off the socket's list and woke the closing socket before tearing the context down; the socket could be freed first and the protocol's ctx teardown then locked the freed protocol socket (asan heap-use-after-free in surv0_ctx_close < surv0_ctx_fini < nni_ctx_destroy < nni_ctx_rele < nng_ctx_sendmsg)"),
  ("submitted while its socket was being closed could stay pending", "C10", "the protocol's sock_close (which fails waiting operations) runs before the socket is marked closed: an nng_send/nng_recv whose caller had already looked the socket up queued itself after that drain and was never completed (op_pending_after_close on pair0/pair1 and other protocols without their own closed flag)"),
  ("SUB receive descriptor stayed readable", "C15", "sub0_ctx_unsubscribe purged the queue without clearing the readable pollable: the receive poll descriptor stayed readable while non-blocking receive returned NNG_EAGAIN"),
+ ("socket creation crashed when allocating its message queues", "C20", "nni_sock_create: when nni_msgq_init for the send or receive queue failed (allocation fault) sock_destroy called the protocol's sock_fini on data the protocol had never initialized (asan/ubsan crash in *_sock_fini, c20_sp fail_alloc_k just after the nni_socket allocation)"),
+ ("websocket receive re-locked its own mutex", "C20", "ws_read_finish_msg, called with ws->mtx held, called ws_close_error on a failed nni_msg_alloc, which locks ws->mtx again: self-deadlock of the websocket receive path after one allocation failure (c20_sp tr=3)"),
+ ("id allocation failed stayed on the socket", "C20", "nni_listener_create/nni_dialer_create: when nni_id_alloc failed (id map growth) the endpoint had already been appended to the socket's list and was then freed while listed (asan heap-use-after-free in the next nng_listen/nng_dial or at socket close)"),
+ ("http server dereferenced a NULL server", "C20", "http_sconn_init: when allocating a per-connection aio failed it called http_sconn_close on a connection whose server pointer had not been set yet (ubsan null deref in http_sconn_close, c20_http)"),
+ ("a pipe whose creation failed", "C20", "pipe_create failure (allocation fault in the protocol or transport pipe init): pipe_destroy/p_fini ran protocol and transport teardown on half-constructed pipe data (NULL ep in tcptran/ipctran/sfd pipe_fini, NULL pair in inproc_pipe_close, protocol pipe_fini without pipe_init), and the inproc pair structure leaked; crashes or leaks in c20_sp for every transport"),
+ ("a failed nng_init tore down", "C20", "nng_init called nng_fini() on any failure, which drained/finalized subsystems that had not been initialized (NULL taskq in nni_taskq_drain, reaper thread join of a thread never created), and nni_aio_sys_init did not check the allocation of its expire queue list (c20_init no_init=1 fail_alloc_k=1..7)"),
 ]
 log = subprocess.run(["git", "-C", "/repo", "log", "--format=%h %s"], capture_output=True, text=True).stdout.strip().split("\n")
 fix_commits = [l for l in log if " fix:" in l]
